@@ -28,7 +28,7 @@ PW == INSTANCE ParquetWrite WITH
 
 VARIABLES l,      \* next event
           live,   \* an episode is open and has not failed
-          cfg,    \* [maxrg, bytes] of the open episode
+          cfg,    \* [maxrg, bytes, cdc] of the open episode
           sch,    \* [names, types, flat, topree, anyree, nullable] of the open episode
           h,      \* API calls so far: <<"w", n>> / <<"f", 0>>
           rin,    \* row tokens written so far
@@ -85,14 +85,17 @@ ChunkPagesOk(k, dictOn, rows) ==
   /\ ~dictOn => \A i \in 1..Len(k) : k[i] = 2
   /\ rows > 0 => data # <<>>
 
-FileOk(ev, sizes, n) ==
+(* cdc: content-defined chunking inserts a page break after every chunk, also  *)
+(* when no row is buffered: pages without rows are then possible               *)
+FileOk(ev, sizes, n, cdc) ==
   /\ ev.rg = sizes /\ ev.nrows = n                         \* row groups as accounted
   /\ Len(ev.pg) = Len(sizes) /\ Len(ev.penc) = Len(sizes)
   /\ \A g \in 1..Len(sizes) :
        /\ Len(ev.pg[g]) = ev.nleaves /\ Len(ev.penc[g]) = ev.nleaves
        /\ \A c \in 1..ev.nleaves :
             (* P3: with an offset index, the pages of every leaf partition the rows of the group *)
-            /\ ev.has_oi => (Sum(ev.pg[g][c]) = sizes[g] /\ \A p \in 1..Len(ev.pg[g][c]) : ev.pg[g][c][p] >= 1)
+            /\ ev.has_oi => (/\ Sum(ev.pg[g][c]) = sizes[g]
+                             /\ \A p \in 1..Len(ev.pg[g][c]) : ev.pg[g][c][p] >= (IF cdc THEN 0 ELSE 1))
             /\ ChunkPagesOk(ev.penc[g][c], ev.dict_leaf[c], sizes[g])
             /\ ev.page_values[g][c] = ev.chunk_values[g][c]
 (* rows come back in order: row group g holds the g-th block               *)
@@ -107,13 +110,24 @@ RowsOk(ev, sizes, rows) ==
 (* Known findings (known_findings.txt): identified by stage, failure kind   *)
 (* and the feature of the input schema that triggers them.                  *)
 (***************************************************************************)
+Has(ev, f) == f \in Range(ev.feat)
 KF(ev) ==
-  CASE ev.op = "fail" /\ ev.panic /\ ev.stage = "write" /\ "dictview" \in Range(ev.feat)
-         -> "C05-dictionary-of-view-values-panics"
+  CASE ev.op = "close" /\ ev.fin = "finish" /\ ev.waf = "ok"
+         -> "C05-write-after-finish-accepted"
+    [] ev.op = "fail" /\ Has(ev, "dictview") /\ ((ev.stage = "write" /\ ev.panic) \/ (ev.stage = "read" /\ ~ev.panic))
+         -> "C05-dictionary-of-view-values"
+    [] ev.op = "fail" /\ Has(ev, "dictflba") /\ ev.stage = "read" /\ ~ev.panic
+         -> "C05-dictionary-of-flba-values-unreadable"
+    [] ev.op = "fail" /\ Has(ev, "dictfsb") /\ ev.panic /\ ev.stage \in {"write", "read"}
+         -> "C05-dictionary-of-fixed-size-binary-panics"
+    [] ev.op = "fail" /\ Has(ev, "fsb0") /\ ev.stage = "write" /\ ev.panic
+         -> "C05-fixed-size-binary-0-panics"
+    [] ev.op = "fail" /\ Has(ev, "lvunordered") /\ ev.cdc /\ ev.stage = "write" /\ ev.panic
+         -> "C05-cdc-unordered-list-view-panics"
     [] OTHER -> ""
 
 (***************************************************************************)
-Init == l = 1 /\ live = FALSE /\ cfg = [maxrg |-> 0, bytes |-> FALSE]
+Init == l = 1 /\ live = FALSE /\ cfg = [maxrg |-> 0, bytes |-> FALSE, cdc |-> FALSE]
         /\ sch = [names |-> <<>>, types |-> <<>>, flat |-> <<>>, topree |-> <<>>, anyree |-> <<>>, nullable |-> <<>>]
         /\ h = <<>> /\ rin = <<>> /\ gs = <<>>
 
@@ -121,7 +135,7 @@ SchemaOf(ev) == [names |-> ev.names_in, types |-> ev.types_in, flat |-> ev.types
                  anyree |-> ev.any_ree, nullable |-> ev.nullable_in]
 
 New(ev) ==
-  /\ live' = TRUE /\ cfg' = [maxrg |-> ev.maxrg, bytes |-> ev.bytes] /\ sch' = SchemaOf(ev)
+  /\ live' = TRUE /\ cfg' = [maxrg |-> ev.maxrg, bytes |-> ev.bytes, cdc |-> ev.cdc] /\ sch' = SchemaOf(ev)
   /\ h' = <<>> /\ rin' = <<>> /\ gs' = <<>>
 
 Write(ev) ==
@@ -148,17 +162,17 @@ Close(ev) ==
               /\ FlushPoints(h, 1, 0) \subseteq Cums(ev.rg)
               /\ ~cfg.bytes => ev.rg = PW!GroupSizes(hh, cfg.maxrg),
               l, <<"row groups", ev.rg>>)
-     /\ Judge(FileOk(ev, ev.rg, n), l, "file structure")
+     /\ Judge(FileOk(ev, ev.rg, n, cfg.cdc), l, "file structure")
      /\ Judge(SchemaOk(ev), l, "schema")
      /\ Judge(RowsOk(ev, ev.rg, rin), l, "rows")
-     /\ Judge(ev.waf # "ok", l, "write accepted after finish")     \* P5
+     /\ JudgeKF(ev.waf # "ok", l, "write accepted after finish", KF(ev))     \* P5
      /\ live' = FALSE /\ UNCHANGED <<cfg, sch, h, rin, gs>>
 
 (* independent column writers on threads: the driver chose the row groups  *)
 Par(ev) ==
   LET n == Len(ev.rin) IN
   /\ Judge(ev.rg = ev.parts /\ Sum(ev.parts) = n, l, <<"par row groups", ev.rg>>)
-  /\ Judge(FileOk(ev, ev.parts, n), l, "par file structure")
+  /\ Judge(FileOk(ev, ev.parts, n, FALSE), l, "par file structure")
   /\ Judge(/\ ev.names_out = ev.names_in /\ ev.nullable_out = ev.nullable_in
            /\ Len(ev.types_out) = Len(ev.types_in)
            /\ \A i \in 1..Len(ev.types_in) :
